@@ -11,6 +11,8 @@ PARAMS = {
     "thorough": dict(nfam=1200, n=5, nrand=600, rand_len=8, nidiom=None, nrr=600, neps=None, nover=800),
 }
 COMBOS = [("LALR", False, False), ("LALR", True, True), ("LALR", False, True), ("SLR", False, False)]
+# the other half of (tables x prefer_shifts x prefer_shifts_over_empty): every third job runs under all eight combinations
+COMBOS_REST = [("LALR", True, False), ("SLR", True, True), ("SLR", False, True), ("SLR", True, False)]
 
 # grammars with empty productions at the beginning, middle and end of rules (C08), expression-like (C04)
 SPECIAL = [
@@ -98,6 +100,9 @@ def _jobs(tier, seed):
             words = words[: len(alpha) + 1] + rng.sample(words[len(alpha) + 1:], 70)
         words += gen.sentences(g, maxlen=4, limit=20)
         jobs.append({"g": g, "inputs": sorted({" ".join(w) for w in words}), "origin": "det", "consume": True})
+    for i, j in enumerate(jobs):
+        if i % 3 == 0 and not j.get("list"):
+            j["allcombos"] = True
     rng = random.Random(2000003 * (seed + 1))
     k = 0
     while k < p["nrand"]:
@@ -188,7 +193,7 @@ def worker(job):
         text_or_grammar = text
     for tables in ("LALR", "SLR"):
         glrs[tables], _err = real.build("glr", text_or_grammar, tables=tables, consume_input=consume, **extra)
-    for tables, ps, pse in COMBOS:
+    for tables, ps, pse in COMBOS + (COMBOS_REST if job.get("allcombos") else []):
         parser, err = real.build("lr", text_or_grammar, tables=tables, prefer_shifts=ps, prefer_shifts_over_empty=pse, build_tree=True,
                                  consume_input=consume, **extra)
         grammar = parser.grammar if parser else (glrs[tables].grammar if glrs[tables] else None)
@@ -245,7 +250,7 @@ def build(tier, seed):
     chunks, cur, n = [], [], 0
     for j in jobs:
         cur.append(j)
-        n += len(j["inputs"]) * len(COMBOS)
+        n += len(j["inputs"]) * (len(COMBOS) + (len(COMBOS_REST) if j.get("allcombos") else 0))
         if n >= CHUNK_CASES:
             chunks.append(cur)
             cur, n = [], 0
